@@ -160,7 +160,8 @@ def hex_inputs(rng, dt, n):
 
 
 def string_inputs(rng, dt, n):
-    out = [n_str(v) for v in c03.STRING_VALUES]
+    # (the last three: characters whose full case folding is longer than, or outside the character set of, their lower case)
+    out = [n_str(v) for v in c03.STRING_VALUES] + [n_str('aßb'), n_str('µ'), n_str('AµB'), n_str('Straße')]
     out += [n_int(1), {'t': 'float', 'v': '1.5'}, {'t': 'none'}, {'t': 'bool', 'v': True}]
     return out
 
@@ -729,6 +730,15 @@ class C13(Property):
                 return '%s: mixed case string changed into %r' % (shown, s), None
             if sp[2] in ('lc', 'uc') and unicase(s) != unicase(exp[1]):
                 return '%s: %r is not a case variant of the input' % (shown, s), None
+            if sp[2] in ('lc', 'uc'):
+                # when the lower / upper case form of the input is in the value space, that is the normal form, and the gate takes it
+                want = exp[1].lower() if sp[2] == 'lc' else exp[1].upper()
+                if c03.spec_verdict(dt, None, want) is True:
+                    if s != want:
+                        return '%s: the %s case form %r is a value of the type, but the normal form is %r' % (
+                            shown, 'lower' if sp[2] == 'lc' else 'upper', want, s), None
+                    if gate is False:
+                        return '%s: normal form %r is rejected by the gate' % (shown, s), None
         if again != out:
             return '%s: normal form %r is not a fixed point: normalizing it again gives %r' % (shown, s, again), None
         if n['t'] == 'str' and repaired is not None and gate is True and exp[0] == 'value':
